@@ -1126,3 +1126,113 @@ func Invalidate(p *Prog, kind string, rng *rand.Rand) bool {
 	}
 	return true
 }
+
+// enumValues: the value the IDL prescribes for every enumerator (see ExpectedEnum)
+func enumValues(d *Decl) map[string]int64 {
+	vals := map[string]int64{}
+	var next int64
+	for _, m := range d.Mems {
+		var v int64
+		switch m.Kind {
+		case 0:
+			v = m.Val
+		case 1:
+			v = vals[m.Ref]
+		default:
+			v = next
+		}
+		vals[m.Name] = v
+		next = v + 1
+	}
+	return vals
+}
+
+// DeclaredDefaults: for every struct, the values its integer, enum, bool and string members must hold
+// after ResetDefault (the declared default, else the zero value), members in ascending tag order.
+// Key: "<package key>.<GoStructName>" as in the round-trip driver.
+func (p *Prog) DeclaredDefaults() map[string]string {
+	enums := map[string]map[string]int64{} // package key + "." + enum name
+	for _, f := range p.Files {
+		for _, m := range f.Modules {
+			key := m.Name
+			if p.Cycle {
+				key = modKey(f.Name, m.Name)
+			}
+			for _, d := range m.Decls {
+				if d.Kind == "enum" {
+					enums[key+"."+d.Name] = enumValues(d)
+				}
+			}
+		}
+	}
+	out := map[string]string{}
+	for _, f := range p.Files {
+		for _, m := range f.Modules {
+			key := m.Name
+			if p.Cycle {
+				key = modKey(f.Name, m.Name)
+			}
+			for _, d := range m.Decls {
+				if d.Kind != "struct" {
+					continue
+				}
+				fs := append([]Field(nil), d.Fields...)
+				sort.Slice(fs, func(i, j int) bool { return fs[i].Tag < fs[j].Tag })
+				s := ""
+				for _, fd := range fs {
+					if fd.ArrLen > 0 {
+						continue
+					}
+					var v string
+					switch {
+					case fd.Ty.Kind == "named" && fd.Ty.IsEnum:
+						v = "0"
+						if fd.Default != "" {
+							name := fd.Default
+							if i := strings.LastIndex(name, "::"); i >= 0 {
+								name = name[i+2:]
+							}
+							ek := fd.Ty.key()
+							if !p.Cycle {
+								ek = fd.Ty.Mod
+							}
+							ev, ok := enums[ek+"."+fd.Ty.Name][name]
+							if !ok {
+								continue
+							}
+							v = strconv.FormatInt(ev, 10)
+						}
+					case fd.Ty.Kind != "prim":
+						continue
+					case fd.Ty.Prim == "float" || fd.Ty.Prim == "double":
+						continue
+					case fd.Ty.Prim == "bool":
+						v = "false"
+						if fd.Default != "" {
+							v = fd.Default
+						}
+					case fd.Ty.Prim == "string":
+						if fd.Default != "" {
+							if len(fd.Default) < 2 || fd.Default[0] != '"' {
+								continue
+							}
+							v = fd.Default[1 : len(fd.Default)-1]
+						}
+					default:
+						v = "0"
+						if fd.Default != "" {
+							n, err := strconv.ParseInt(fd.Default, 0, 64)
+							if err != nil {
+								continue
+							}
+							v = strconv.FormatInt(n, 10)
+						}
+					}
+					s += fmt.Sprintf("%s=%q;", upperFirst(fd.Name), v)
+				}
+				out[key+"."+upperFirst(d.Name)] = s
+			}
+		}
+	}
+	return out
+}
